@@ -253,11 +253,25 @@ class Ctx:
         """#print axioms for the given theorems + forbidden-token grep over lean/QuriVerif"""
         with self.timed("audit"):
             bad = []
-            for f in glob.glob(os.path.join(LEAN, "QuriVerif", "**", "*.lean"), recursive=True) + [
-                os.path.join(LEAN, "Driver.lean")
-            ]:
+            # every source file in the import closure of the audited modules (and the driver)
+            todo = list(imports) + ["Driver"]
+            seen = set()
+            files = []
+            while todo:
+                mname = todo.pop()
+                if mname in seen:
+                    continue
+                seen.add(mname)
+                f = os.path.join(LEAN, mname.replace(".", "/") + ".lean")
                 if not os.path.exists(f):
                     continue
+                files.append(f)
+                for line in open(f):
+                    mm = re.match(r"\s*import\s+(QuriVerif[\w.]*)", line)
+                    if mm:
+                        todo.append(mm.group(1))
+            self.extra["audited_files"] = len(files)
+            for f in files:
                 txt = open(f).read()
                 txt = re.sub(r"/-.*?-/", "", txt, flags=re.S)
                 for i, line in enumerate(txt.split("\n"), 1):
